@@ -234,14 +234,20 @@ func Handle(c *core.Check, st core.State) {
 				// concrete instantiations: the base value and its alternates, for each abstracted variable
 				insts := []map[string]cty.Value{{}}
 				for _, x := range sub {
-					cands := append([]cty.Value{base[x]}, alts[x]...)
+					// the base value, a null of its type (an unknown that is not refined as non-null may
+					// turn out to be null), then the alternates
+					cands := []cty.Value{base[x]}
+					if !base[x].IsNull() {
+						cands = append(cands, cty.NullVal(base[x].Type()))
+					}
+					cands = append(cands, alts[x]...)
 					var next []map[string]cty.Value
 					for _, m := range insts {
 						for ci, cv := range cands {
 							if x == lead && !ab.admits(cv) {
 								continue
 							}
-							if len(sub) > 1 && ci > 2 {
+							if len(sub) > 1 && ci > 3 {
 								break
 							}
 							nm := map[string]cty.Value{}
